@@ -22,6 +22,7 @@ META = {
         "QVerif.Pipeline.estimator_evaluate_at",
         "QVerif.Pipeline.transpileSampler_sound",
         "QVerif.Pipeline.sampler_evaluateS_spec",
+        "QVerif.Pipeline.sampler_value_is_cvar",
         "QVerif.Pipeline.quasi_mass_one",
         "QVerif.Pipeline.transpileSPub_sound",
         "QVerif.Pipeline.override_shots_is_wrong",
@@ -42,7 +43,8 @@ META = {
     "level": "proof",
     "level_text": "Partial proof. Proved (Model/Pipeline.lean): (0) shot counts travel with the pubs — through every sound stack, whatever other callers with whatever shot counts "
     "share a batch, value i is the aggregation of a probability distribution (non-negative, mass one: the hypotheses of the C14 theorems) when the sampler honours each pub's shots "
-    "(sampler_evaluateS_spec, quasi_mass_one; witness override_shots_is_wrong); (1) any stack of transpiling / mutex / batching wrappers around an ideal primitive (result i a function of pub i) "
+    "(sampler_evaluateS_spec, quasi_mass_one; witness override_shots_is_wrong), and composed with C14: the returned value is within (1e-8 + 1e-5 alpha) max|f| / alpha of the exact "
+    "CVaR of that distribution, at every batch position (sampler_value_is_cvar); (1) any stack of transpiling / mutex / batching wrappers around an ideal primitive (result i a function of pub i) "
     "is again ideal with the same answers whenever each rewriting preserves a pub's answer, whatever other callers put into a batch (stack_pointwise; the batching "
     "wrapper's internals are C06's theorems); (2) for all three evaluator kinds, value i is the objective of (initial state o circuit i) with parameter vector i — every "
     "batch position (…_evaluate_spec/_at; the objective from counts is C14's model); (3) the estimator wrapper's re-layout: a Pauli operator laid out with the FINAL index "
